@@ -24,11 +24,51 @@ class SingleRootField(June2018ReleaseValidationRule):
     RULE_LINK = "https://graphql.github.io/graphql-spec/June2018/#sec-Single-root-field"
     RULE_NUMBER = "5.2.3.1"
 
+    def _collect_response_keys(
+        self, selection_set, fragments, visited_fragments, response_keys
+    ):
+        for selected in selection_set.selections:
+            if isinstance(selected, FragmentSpreadNode):
+                if selected.name.value in visited_fragments:
+                    continue
+                visited_fragments.add(selected.name.value)
+
+                frag = _find_fragment(fragments, selected.name.value)
+                if frag:  # Otherwise handled by another validator
+                    self._collect_response_keys(
+                        frag.selection_set,
+                        fragments,
+                        visited_fragments,
+                        response_keys,
+                    )
+            elif isinstance(selected, InlineFragmentNode):
+                self._collect_response_keys(
+                    selected.selection_set,
+                    fragments,
+                    visited_fragments,
+                    response_keys,
+                )
+            else:
+                response_keys.add(
+                    selected.alias.value
+                    if selected.alias
+                    else selected.name.value
+                )
+        return response_keys
+
     def _validate_selection_set(
         self, operation, selection_set, fragments, path
     ):
         nb_selections = len(selection_set.selections)
-        if nb_selections > 1:
+        if (
+            nb_selections > 1
+            and len(
+                self._collect_response_keys(
+                    selection_set, fragments, set(), set()
+                )
+            )
+            > 1
+        ):
             message = f"{f'Subcription {operation.name.value}' if operation.name else 'Anonymous Subscription'}"
             return [
                 graphql_error_from_nodes(
